@@ -366,7 +366,7 @@ impl ClientUdpCtx {
     }
 }
 
-pub trait ServerUdpDyn: Send {
+pub trait ServerUdpDyn: Send + Sync {
     fn decode(&self, src: &mut BytesMut) -> Result<Option<(Vec<u8>, Address, USession)>>;
     fn encode(&self, content: &[u8], addr: Address, s: &USession, dst: &mut BytesMut) -> Result<()>;
 }
